@@ -177,10 +177,14 @@ func runC05(e *Env) error {
 		"{% do 1 + 2 %}{% do x = 3 %}", "{% include ['a', 'b'] %}", "{% block a %}x{% block a %}y{% endblock %}{% endblock %}", "{%extends \"%}", "{%include '%}", "{{-}}", "{%-%}", "{% for %}", "{% if %}", "{% set %}", "{% from 'a' import %}",
 		// keywords in other letter cases next to letters whose case mapping changes the byte length (Ⱥ 2→3 bytes, İ 2→3, K 3→1, ẞ 3→2)
 		"{% for ȺȺ in xs %}{{ ȺȺ }}{% endfor %}", "{% FOR Ⱥ IN xs %}x{% ENDFOR %}", "{% for \xff\xff\xff IN xs %}{% endfor %}", "{% from 'lib' IMPORT m AS İİ %}", "{% import 'lib' AS KK %}{{ KK.m(1) }}",
-		"{% SET ẞ = 1 %}{{ ẞ }}", "{% for k, Ⱥ in user %}{{ k }}{% endfor %}", "{% If İ %}x{% EndIf %}", "{% from 'lib' import m as ȺȺȺȺȺȺȺȺ %}")
+		"{% SET ẞ = 1 %}{{ ẞ }}",
+		// inheritance chains of three and four levels where several levels call parent() in the same block
+		"{% extends 'mid' %}{% block c %}C{{ parent() }}{% endblock %}", "{% extends 'mid2' %}{% block c %}D{{ parent() }}{% endblock %}{% block inner %}J{{ parent() }}{{ parent() }}{% endblock %}",
+		"{% extends 'mid2' %}{% block c %}{% for i in [1, 2] %}{{ parent() }}{% endfor %}{% endblock %}", "{% extends 'mid' %}{% block inner %}{{ parent() }}{% block deeper %}{{ parent() }}{% endblock %}{% endblock %}", "{% for k, Ⱥ in user %}{{ k }}{% endfor %}", "{% If İ %}x{% EndIf %}", "{% from 'lib' import m as ȺȺȺȺȺȺȺȺ %}")
 	frags := []string{"{{", "}}", "{%", "%}", "{#", "#}", "-", "{{-", "-%}", " in ", " with ", " as ", " import ", "=", "'", "\"", "\\", "|", "(", ")", "[", "]", "{", "}", ",", ".", ":", "?", "endif", "endfor", "else", "elseif", "endblock", "endmacro", "\x00", "\xff", "é", "  ", "Ⱥ", "İ", "K", "ẞ", " IN ", "FOR ", " AS ", "IMPORT ", "ȺȺȺ"}
 	ctx := map[string]any{"n": 3, "s": "str", "xs": []interface{}{1, 2}, "user": map[string]interface{}{"name": "x"}, "t": true}
-	libs := map[string]string{"t2": "{{ v }}", "base": "[{% block c %}b{% endblock %}]", "lib": "{% macro m(a) %}M{{ a }}{% endmacro %}"}
+	libs := map[string]string{"t2": "{{ v }}", "base": "[{% block c %}b{% endblock %}]", "lib": "{% macro m(a) %}M{{ a }}{% endmacro %}",
+		"mid": "{% extends 'base' %}{% block c %}M{{ parent() }}{% block inner %}i{% endblock %}{% endblock %}", "mid2": "{% extends 'mid' %}{% block c %}N{{ parent() }}{{ parent() }}{% endblock %}{% block inner %}I{{ parent() }}{% endblock %}"}
 	n := e.N(6000, 400000)
 	for i := 0; i < n && !r.Full(); i++ {
 		var src string
@@ -225,6 +229,7 @@ func runC05(e *Env) error {
 		if parseOnly {
 			r.Hit("src-self-recursive-parse-only")
 		}
+		breadcrumb("src", map[string]any{"src": src, "src_hex": hx(src)})
 		res := guarded(func() (string, error) {
 			eng := twig.New()
 			for _, nme := range sortedKeys(libs) {
@@ -278,6 +283,47 @@ func runC05(e *Env) error {
 			if res.Class == "panic" || res.Class == "timeout" {
 				if report("panic-or-hang-source", fmt.Sprintf("template source %q (%d bytes): %s %s", truncate(edge, 100), len(src), res.Class, truncate(res.Panic, 300)),
 					map[string]any{"kind": "src", "src_hex": hx(src), "class": res.Class, "panic": res.Panic, "err": fmt.Sprint(res.Err)}) {
+					return nil
+				}
+			}
+		}
+	}
+	// (a3) an engine whose loader supplies broken and failing templates stays usable: every call returns within the watchdog
+	{
+		boom := fmt.Errorf("loader exploded")
+		src := map[string]string{"good": "good {{ v }}", "broken": "x{% if %}{{ ", "inc": "[{% include 'broken' %}]", "incm": "[{% include 'broken' ignore missing %}]", "ext": "{% extends 'broken' %}", "imp": "{% import 'broken' as b %}x",
+			"frm": "{% from 'broken' import a %}x", "incboom": "{% include 'boom' %}", "unclosed": "{{ 1", "part": "P{{ v }}"}
+		names := sortedKeys(src)
+		for round := 0; round < 6 && !r.Full(); round++ {
+			eng := twig.New()
+			eng.RegisterLoader(&sentinelLoader{name: "boom", err: boom, src: src})
+			if round%2 == 1 {
+				eng.SetAutoReload(true)
+			}
+			if round%3 == 2 {
+				eng.SetCache(false)
+			}
+			var log []string
+			for step := 0; step < 30; step++ {
+				name := pick(rg, append(names, "boom", "nosuch"))
+				op := rg.Intn(4)
+				log = append(log, fmt.Sprintf("%d:%s", op, name))
+				res := guardedTimeout(3*time.Second, func() (string, error) {
+					switch op {
+					case 0:
+						_, err := eng.Load(name)
+						return "", err
+					case 1:
+						return "", eng.RegisterString("reg"+name, src["part"])
+					default:
+						return eng.Render(name, map[string]interface{}{"v": 1})
+					}
+				})
+				r.Seen(fmt.Sprintf("loader-engine:%d:%d", round, step), true)
+				r.Hit("loader-engine-class:" + res.Class)
+				if res.Class == "panic" || res.Class == "timeout" || (name == "good" && op >= 2 && res.Out != "good 1") {
+					report("engine-unusable-after-failure", fmt.Sprintf("engine with a loader holding broken/failing templates: call %d (%s) after [%s]: %s %q %s", step, log[len(log)-1], strings.Join(log[:len(log)-1], " "), res.Class, res.Out, truncate(res.Panic, 200)),
+						map[string]any{"kind": "loader-engine", "ops": log, "class": res.Class, "panic": res.Panic})
 					return nil
 				}
 			}
